@@ -133,7 +133,9 @@ func (s *StateRoutineContainer[T]) SwapValue(cb func(val T) T) (nextState T, wai
 				nextState = stateBefore
 			}
 		} else {
-			running = s.rc.getRunningLocked()
+			s.rc.bcast.HoldLock(func(_ func(), _ func() <-chan struct{}) {
+				running = s.rc.getRunningLocked()
+			})
 		}
 	})
 	return
@@ -164,8 +166,11 @@ func (s *StateRoutineContainer[T]) updateStateRoutineLocked(broadcast func()) (w
 			return routine(ctx, st)
 		}
 	}
-	waitReturn, reset = s.rc.setRoutineLocked(setRoutine, broadcast)
-	running = s.rc.getRunningLocked()
+	// the routine container fields are guarded by its own lock
+	s.rc.bcast.HoldLock(func(rcBroadcast func(), _ func() <-chan struct{}) {
+		waitReturn, reset = s.rc.setRoutineLocked(setRoutine, rcBroadcast)
+		running = s.rc.getRunningLocked()
+	})
 	return
 }
 
